@@ -12,9 +12,9 @@ open Convert C09L
 
 /-! ### example universe (used only by the `example`s that show the hypotheses are satisfiable) -/
 def tInt64 : Ty := .prim .int64
-def tS1 : Ty := .named "S1" [] ["Error|()(string)"] (.strct (.cons "A" tInt64 (.cons "B" (.prim .int32) (.cons "C" (.prim .bool) .nil))))
-def tS1b : Ty := .named "S1b" [] [] (.strct (.cons "X" tInt64 (.cons "Y" (.prim .int32) (.cons "Z" (.prim .bool) .nil))))
-def tS2 : Ty := .named "S2" [] [] (.strct (.cons "A" tInt64 (.cons "B" tInt64 (.cons "C" tInt64 .nil))))
+def tS1 : Ty := .named "S1" [] ["Error|()(string)"] (.strct [] [] (.cons "A" tInt64 (.cons "B" (.prim .int32) (.cons "C" (.prim .bool) .nil))))
+def tS1b : Ty := .named "S1b" [] [] (.strct [] [] (.cons "X" tInt64 (.cons "Y" (.prim .int32) (.cons "Z" (.prim .bool) .nil))))
+def tS2 : Ty := .named "S2" [] [] (.strct [] [] (.cons "A" tInt64 (.cons "B" tInt64 (.cons "C" tInt64 .nil))))
 def tError : Ty := .named "error" ["Error|()(string)"] [] (.iface ["Error|()(string)"])
 def tFunc : Ty := .func "()()"
 def vS1 : Val := .agg (.cons (.int 7) (.cons (.int (-2)) (.cons (.bool true) .nil)))
